@@ -22,9 +22,9 @@ from concurrent.futures import ThreadPoolExecutor
 V = "/verif"
 SRC = "src/basictdf"
 RELEVANT = {
-    "tdfTypes.py": ["C13", "C06", "C19", "C01", "C12", "C10"],
+    "tdfTypes.py": ["C13", "C06", "C19", "C01", "C12", "C10", "C14", "C04"],
     "basictdf.py": ["C03", "C07", "C10", "C11", "C08", "C17", "C04", "C09", "C14"],
-    "tdfData3D.py": ["C01", "C05", "C16", "C18", "C02", "C19", "C14", "C12", "C20"],
+    "tdfData3D.py": ["C01", "C05", "C16", "C18", "C02", "C19", "C14", "C12", "C20", "C09"],
     "tdfEMG.py": ["C01", "C05", "C15", "C16", "C18", "C02", "C14"],
     "tdfForce3D.py": ["C01", "C05", "C16", "C18", "C19", "C02", "C14"],
     "tdfForcePlatformsData.py": ["C01", "C05", "C15", "C02", "C14"],
@@ -42,8 +42,11 @@ CMP = {ast.Lt: ast.LtE, ast.LtE: ast.Lt, ast.Gt: ast.GtE, ast.GtE: ast.Gt, ast.E
 BIN = {ast.Add: ast.Sub, ast.Sub: ast.Add, ast.Mult: ast.FloorDiv, ast.FloorDiv: ast.Mult}
 
 
-def sh(cmd, **kw):
-    p = subprocess.run(cmd, shell=True, stdout=subprocess.PIPE, stderr=subprocess.STDOUT, text=True, **kw)
+def sh(cmd, timeout=None, **kw):
+    try:
+        p = subprocess.run(cmd, shell=True, stdout=subprocess.PIPE, stderr=subprocess.STDOUT, text=True, timeout=timeout, **kw)
+    except subprocess.TimeoutExpired:
+        return 124, "TIMEOUT"
     return p.returncode, p.stdout
 
 
@@ -212,8 +215,14 @@ def evaluate(job):
         rc, o = sh("git -C %s diff --stat" % wt)
         for pid in RELEVANT.get(fname, []):
             ev = tempfile.mkdtemp(prefix="mutev_")
-            rc, o = sh("./check %s --tier quick" % pid, env=dict(os.environ, VERIF_REPO=wt, VERIF_EVIDENCE=ev), cwd=V)
+            rc, o = sh("timeout -k 10 2400 ./check %s --tier quick" % pid, timeout=2500, env=dict(os.environ, VERIF_REPO=wt, VERIF_EVIDENCE=ev), cwd=V)
             shutil.rmtree(ev, ignore_errors=True)
+            if rc in (124, 137):
+                res["status"] = "caught"
+                res["by"] = pid
+                res["with_failing_input"] = False
+                res["first"] = "the check did not finish within 40 minutes on this tree"
+                return res
             lines = [l for l in o.split("\n") if l.startswith("VIOLATION")]
             if rc != 0 and lines:
                 res["status"] = "caught"
@@ -232,6 +241,9 @@ def evaluate(job):
         shutil.rmtree(wt, ignore_errors=True)
 
 
+HEAD = subprocess.run("git -C /repo rev-parse --short HEAD", shell=True, stdout=subprocess.PIPE, text=True).stdout.strip()
+
+
 def main():
     jobs = int(sys.argv[1]) if len(sys.argv) > 1 else 4
     per_file = int(sys.argv[2]) if len(sys.argv) > 2 else 10
@@ -248,7 +260,8 @@ def main():
         for r in ex.map(evaluate, work):
             out.append(r)
             print(json.dumps({k: r[k] for k in r if k not in ("diff",)})[:300], flush=True)
-            json.dump({"seed": seed, "per_file": per_file, "results": out}, open(os.path.join(V, "seeded", "MUTANTS.json"), "w"), indent=1)
+            json.dump({"seed": seed, "per_file": per_file, "repo_head": HEAD, "results": out},
+                      open(os.path.join(V, "seeded", "MUTANTS.json" if seed == 1 else "MUTANTS_seed%d.json" % seed), "w"), indent=1)
     tally = {}
     for r in out:
         key = r["status"].split(" ")[0]
